@@ -113,7 +113,7 @@ func runC18(o *Out, rng *Rng, tier string, replay string) {
 	} else if tier == "search" {
 		n = 2000
 	}
-	o.sum.Rule = "case = a triple of coordinates a, b, c (a from poles / antimeridian / signed zeros / just inside the limits / whole degrees / uniform; b and c related to it: coincident, within 1e-3..1e-15 degrees, antipodal, within 1e-3..1e-15 degrees of the antipode, same meridian, mirrored longitude, unrelated) plus invalid coordinates (just outside the limits, NaN, infinities, far outside) and NewFlight calls (zero start, end before/at/after start); every LatLon.Distance / NewFlight result and a sample of math.Cos / math.Asin values are compared bit for bit with the PrimFloat port; Go monitors on the real code: finite, >= 0, <= pi*R (+1 m), d(p,p) = 0 exactly, bit-exact symmetry, triangle inequality within 1 m, invalid coordinates rejected, NewFlight argument checks, recorded distance == Distance(from,to); non-trivial = triple with a degenerate relation (coincident / antipodal / near-*); distinct by coordinates"
+	o.sum.Rule = "case = a triple of coordinates a, b, c (a from poles / antimeridian / signed zeros / just inside the limits / whole degrees / uniform; b and c related to it: coincident, within 1e-3..1e-15 degrees, antipodal, within 1e-3..1e-15 degrees of the antipode, same meridian, mirrored longitude, unrelated) plus invalid coordinates (just outside the limits, NaN, infinities, far outside) and NewFlight calls (zero start, end before/at/after start, times up to 2^64-1 with differences beyond 2^63); every LatLon.Distance / NewFlight result and a sample of math.Cos / math.Asin values are compared bit for bit with the PrimFloat port; Go monitors on the real code: finite, >= 0, <= pi*R (+1 m), d(p,p) = 0 exactly, bit-exact symmetry, triangle inequality within 1 m, invalid coordinates rejected, NewFlight argument checks, recorded distance == Distance(from,to); non-trivial = triple with a degenerate relation (coincident / antipodal / near-*); distinct by coordinates"
 	for c := 0; c < n; c++ {
 		r := rng.Fork()
 		var coq []string
@@ -179,9 +179,13 @@ func runC18(o *Out, rng *Rng, tier string, replay string) {
 		// NewFlight
 		from := flap.Airport{Code: flap.NewICAOCode("AAAA"), Loc: a.ll()}
 		to := flap.Airport{Code: flap.NewICAOCode("BBBB"), Loc: b.ll()}
-		start := []uint64{0, 1, 1580000000, uint64(r.Range(1, 2000000000))}[r.Intn(4)]
+		start := []uint64{0, 1, 1580000000, uint64(r.Range(1, 2000000000)), 1<<63 + uint64(r.Intn(1000)), math.MaxUint64, 1 << 63, 1<<63 - 1}[r.Intn(8)]
 		var end uint64
-		switch r.Intn(4) {
+		switch r.Intn(6) {
+		case 4: // far below the start (the difference does not fit a signed 64-bit number)
+			end = uint64(r.Range(0, 1000))
+		case 5:
+			end = start/2 + uint64(r.Intn(5))
 		case 0:
 			end = start
 		case 1:
